@@ -130,6 +130,16 @@ func c19scenario(obj c19obj, picks []int, bound int) *explore.Scenario {
 			if rs := newRaces(); len(rs) > 0 {
 				return out, &explore.Violation{Sig: "C19 race " + rs[0], Msg: fmt.Sprintf("%s, threads %v: data race between %s (full report in the race log)", obj.name, names, rs[0])}
 			}
+			// these programs only combine operations that are safe to use concurrently and that cannot fail
+			// sequentially: the library crashing in one of them is the run-time face of two conflicting,
+			// unordered operations (double close of a channel, the runtime's concurrent-map-access abort)
+			for _, p := range ex.Panics {
+				first := p.Value
+				if i := strings.IndexByte(first, '\n'); i > 0 {
+					first = first[:i]
+				}
+				return out, &explore.Violation{Sig: "C19 crash " + first, Msg: fmt.Sprintf("%s, threads %v: the library panicked under concurrent use (%s): %s\n%s", obj.name, names, p.Thread, p.Value, p.Stack)}
+			}
 			return out, nil
 		}
 		return body, check
@@ -237,6 +247,8 @@ func c19objects() []c19obj {
 				{"Set(burst lower)", func() { f.Set(vnet.TBFMaxBurst(600)) }},
 				{"Set(rate lower)", func() { f.Set(vnet.TBFRate(100 * vnet.KBit)) }},
 				{"traffic2", func() { vnet.ZZPush(f, vnet.ZZUDPChunk("10.0.0.1:1", "10.0.0.2:3", make([]byte, 100))) }},
+				// shutting the filter down while it works (Close is not idempotent: it is never paired with itself)
+				{"Close", func() { _ = f.Close() }},
 			}
 		}},
 		{name: "delay+loss filter", setup: func() []c19op {
@@ -348,7 +360,7 @@ func c19objects() []c19obj {
 	}
 }
 
-func c19counts() []int { return []int{6, 4, 6, 6, 9, 6, 3, 8, 5, 3, 2} }
+func c19counts() []int { return []int{6, 4, 6, 6, 9, 7, 3, 8, 5, 3, 2} }
 
 func init() {
 	register(&Check{ID: "C19", ShardByScenario: true,
@@ -370,6 +382,9 @@ func init() {
 						if i == j && tier == "quick" && (oi == 4 || oi == 7 || oi == 8) {
 							continue // same operation twice on the three largest families: thorough only
 						}
+						if oi == 5 && i == 6 && j == 6 {
+							continue // TokenBucketFilter.Close twice is a caller error (close of a closed channel)
+						}
 						out = append(out, c19scenario(o, []int{i, j}, bound))
 					}
 				}
@@ -381,7 +396,7 @@ func init() {
 			}
 			return out
 		},
-		Rule: "programs: for each object (packet buffer, packet buffer with a full size-limited ring, deadline, dpipe, vnet socket + running router, NAT router under traffic, token bucket filter, delay+loss filter, UDP listener + connection, UDP listener with batch writes, two independent networks) every unordered pair (thorough: also each operation with itself and selected triples) of its concurrent-safe operations runs in separate threads after a sequential set-up; every schedule within the deviation bound runs under the Go race detector with a scheduler hand-off invisible to it; a violation is a detector report whose two accesses are both in repository code",
+		Rule: "programs: for each object (packet buffer, packet buffer with a full size-limited ring, deadline, dpipe, vnet socket + running router, NAT router under traffic, token bucket filter, delay+loss filter, UDP listener + connection, UDP listener with batch writes, two independent networks) every unordered pair (thorough: also each operation with itself and selected triples) of its concurrent-safe operations runs in separate threads after a sequential set-up; every schedule within the deviation bound runs under the Go race detector with a scheduler hand-off invisible to it; a violation is a detector report whose two accesses are both in repository code, or a panic of the library in such a program (double close, runtime map-access abort)",
 		Assumptions: []string{"the race detector keeps a bounded shadow history per memory word; the harnesses are short, so eviction is unlikely but possible",
 			"operations documented as construction-only (TBFQueueSizeInBytes, Bridge.SetLossChance) are not in the alphabet",
 			"happens-before edges of mutex/rwmutex/waitgroup/once/channel/timer/go are re-created for the detector by the shim (runtime.RaceAcquire/Release); the real channel, atomic and go operations are executed by the thread itself"}})
